@@ -749,19 +749,21 @@ class Executor:
 
     def _next_entry(self, st) -> bool:
         entries = st.user["_entries"]
-        i = st.user["_entry_i"]
-        if i >= len(entries):
-            return False
-        st.user["_entry_i"] = i + 1
-        name, args = entries[i]
-        if name.startswith("#"):
-            st.events.append(("marker", name[1:]))
-            return self._next_entry(st)
-        if callable(name):
-            name(self, st)
-            return self._next_entry(st)
-        self.call_function(st, name, args)
-        return True
+        while True:
+            i = st.user["_entry_i"]
+            if i >= len(entries):
+                return False
+            name, args = entries[i]
+            if callable(name):
+                name(self, st)          # may raise ForkRequest: the index is advanced only afterwards
+                st.user["_entry_i"] = i + 1
+                continue
+            st.user["_entry_i"] = i + 1
+            if name.startswith("#"):
+                st.events.append(("marker", name[1:]))
+                continue
+            self.call_function(st, name, args)
+            return True
 
     def _finish(self, st, status):
         self.cur_state = st
